@@ -1093,7 +1093,7 @@ WBXML_DECLARE(WBXMLError) wbxml_tree_extract_node(WBXMLTree *tree,
         /* No more parent */
         node->parent = NULL;
     }
-    else {
+    else if (tree->root == node) {
         /* Root removed ! */
         tree->root = node->next;
     }
